@@ -80,12 +80,14 @@ pub fn get(prop: &str, tier: &str) -> Option<Check> {
         },
         "C04" => Check {
             prop: "C04",
-            rule_text: "each run: real TCP client, lock-step; for every outstanding request the peer answers from the C04 reply grammar (correct, exception forms with every code and 0/2 trailing bytes, length -3..+3, byte-count/echo fields off by one or bit-flipped, wrong function byte, empty PDU, undefined coil value, self-consistent wrong quantity, random PDUs); completion must equal model::pdu::decode_reply (Ok data indexed from start / Exception(code) / a non-exception error). Variant 2 draws requests over the full size range. Distinct = hash of requests and reply prefixes.",
+            rule_text: "each run: real TCP client, lock-step; for every outstanding request the peer answers from the C04 reply grammar (correct, exception forms with every code and 0/2 trailing bytes, length -3..+3, byte-count/echo fields off by one or bit-flipped, wrong function byte, empty PDU, undefined coil value, self-consistent wrong quantity, random PDUs); completion must equal model::pdu::decode_reply (Ok data indexed from start / Exception(code) / a non-exception error). Variant 2 draws requests over the full size range. Racy batches: under free interleavings, delays and late replies a request may complete with data or an exception only if a reply carrying its own transaction id and exactly that content had been delivered on its connection. Distinct = hash of requests and reply prefixes.",
             batches: vec![
                 Batch { name: "client_lockstep_replies", f: scen::client::run_lockstep, cfg: cfg(Mode::LockStep, false, 2), runs: n(80_000, 3_000_000), real: REAL_CLIENT_TCP, stub: STUB_CLIENT_TCP },
                 Batch { name: "client_lockstep", f: scen::client::run_lockstep, cfg: cfg(Mode::LockStep, false, 0), runs: n(40_000, 1_000_000), real: REAL_CLIENT_TCP, stub: STUB_CLIENT_TCP },
                 Batch { name: "client_encoding", f: scen::client::run_encoding, cfg: cfg(Mode::LockStep, false, 0), runs: n(20_000, 500_000), real: REAL_CLIENT_TCP, stub: STUB_CLIENT_TCP },
                 Batch { name: "client_lockstep_rtu", f: scen::client::run_lockstep_rtu, cfg: cfg(Mode::LockStep, false, 2), runs: n(30_000, 800_000), real: REAL_CLIENT_RTU, stub: STUB_CLIENT_RTU },
+                Batch { name: "client_racy", f: scen::racy::run_client_racy, cfg: cfg(Mode::Racy, false, 0), runs: n(30_000, 1_000_000), real: REAL_CLIENT_TCP, stub: STUB_CLIENT_TCP },
+                Batch { name: "client_racy_faults", f: scen::racy::run_client_racy, cfg: cfg(Mode::Racy, true, 0), runs: n(30_000, 1_000_000), real: REAL_CLIENT_TCP, stub: STUB_CLIENT_TCP },
             ],
             assumptions: vec!["byte-count field of read replies is not examined (length is)"],
         },
